@@ -22,11 +22,11 @@ from vlib.verdict import Check, machinery_failure  # noqa: E402
 
 PROP = "C05"
 DISP = {"pub": ["public"], "pubprot": ["public", "protected"], "all": ["public", "protected", "private"], "priv": ["private"], "none": ["none"]}
-PARENT_PAGE = {"m": "module/m.html", "t_pub": "type/t_pub.html", "s_pub": "proc/s_pub.html", "sm": "module/sm.html", "mp": "proc/mp.html"}
+PARENT_PAGE = {"m": "module/m.html", "t_pub": "type/t_pub.html", "s_pub": "proc/s_pub.html", "sm": "module/sm.html", "mp": "proc/mp.html", "s_prv": "proc/s_prv.html"}
 OWN_PAGE = {"t_pub": "type/t_pub.html", "t_prv": "type/t_prv.html", "s_pub": "proc/s_pub.html", "s_prv": "proc/s_prv.html",
-            "g_pub": "interface/g_pub.html", "ai_prv": "interface/ai_prv.html", "mp": "proc/mp.html", "mpi": "interface/mp.html"}
+            "g_pub": "interface/g_pub.html", "ai_prv": "interface/ai_prv.html", "mp": "proc/mp.html", "mpi": "interface/mp.html", "nl_prv": "namelist/nl_prv.html", "t_ext": "type/t_ext.html"}
 PARENT = {"v_pub": "m", "v_prv": "m", "v_pro": "m", "u_pub": "m", "t_pub": "m", "t_prv": "m", "c_pub": "t_pub", "c_prv": "t_pub",
-          "b_pub": "t_pub", "b_prv": "t_pub", "s_pub": "m", "s_prv": "m", "lv": "s_pub", "inner": "s_pub", "g_pub": "m", "ai_prv": "m", "mp": "sm", "mplv": "mp", "mpi": "m"}
+          "b_pub": "t_pub", "b_prv": "t_pub", "s_pub": "m", "s_prv": "m", "lv": "s_pub", "inner": "s_pub", "g_pub": "m", "ai_prv": "m", "mp": "sm", "mplv": "mp", "mpi": "m", "nl_prv": "s_prv", "t_ext": "m"}
 
 
 def trc(n):
@@ -56,7 +56,8 @@ def render(opt):
            f"    procedure, public :: b_pub => impl_b !! {trc('b_pub')}\n"
            f"    procedure, private :: b_prv => impl_c !! {trc('b_prv')}\n"
            "  end type t_pub\n"
-           f"  type, private :: t_prv\n    !! {trc('t_prv')}\n    integer :: z\n  end type t_prv\n"
+           f"  type, private :: t_prv\n    !! {trc('t_prv')}\n    integer :: z\n  contains\n    procedure :: bq => impl_q\n  end type t_prv\n"
+           f"  type, public, extends(t_prv) :: t_ext\n    !! {trc('t_ext')}\n    integer :: w\n  end type t_ext\n"
            f"  interface\n    module subroutine mp()\n      !! {trc('mpi')}\n    end subroutine mp\n  end interface\n"
            f"  interface g_pub\n    !! {trc('g_pub')}\n    module procedure impl_g\n  end interface g_pub\n"
            f"  abstract interface\n    subroutine ai_prv(k)\n      !! {trc('ai_prv')}\n      integer :: k\n    end subroutine ai_prv\n  end interface\n"
@@ -66,7 +67,8 @@ def render(opt):
            "    lv = 1\n    call inner()\n  contains\n"
            f"    subroutine inner()\n      !! {trc('inner')}\n    end subroutine inner\n"
            "  end subroutine s_pub\n"
-           f"  subroutine s_prv()\n    !! {trc('s_prv')}\n  end subroutine s_prv\n"
+           f"  subroutine s_prv()\n    !! {trc('s_prv')}\n    integer :: nlv\n    namelist /nl_prv/ nlv\n    !! {trc('nl_prv')}\n  end subroutine s_prv\n"
+           "  subroutine impl_q(self)\n    class(t_prv) :: self\n  end subroutine impl_q\n"
            "  subroutine impl_b(self)\n    class(t_pub) :: self\n  end subroutine impl_b\n"
            "  subroutine impl_c(self)\n    class(t_pub) :: self\n  end subroutine impl_c\n"
            "  subroutine impl_g(q)\n    integer :: q\n  end subroutine impl_g\n"
@@ -162,6 +164,7 @@ def run(tier, seed, ck: Check):
         if opt["hide_undoc"]:
             sel.discard("ai_prv")
             sel.discard("mpi")
+        sel.add("nl_prv")          # C05-F3: the namelist of a procedure is documented whatever happens to the procedure
         return sel
 
     div = 1 if big else 20
@@ -180,12 +183,17 @@ def run(tier, seed, ck: Check):
             seen.add((tag, b[:40]))
             if explained and tag in ("missing", "leak", "leak-search", "no-page", "page-of-unselected", "undoc", "link"):
                 hit = False
-                if c["opt"]["hide_undoc"] and b.startswith(("ai_prv ", "mpi ")):
+                if b.startswith("nl_prv "):
+                    hit = ck.known_finding("C05-F3")
+                elif c["opt"]["hide_undoc"] and b.startswith(("ai_prv ", "mpi ")):
                     hit = ck.known_finding("C05-F2")
                 elif c["opt"]["ofile"] != "absent":
                     hit = ck.known_finding("C05-F1")
                 if hit:
                     continue
+            if tag == "link" and "type/t_prv.html#boundprocedure-bq points at" in b and "t_ext" in r_.get("observed", []) and "t_prv" not in c["selected"] \
+                    and ck.known_finding("C05-F4"):
+                continue
             ck.violation(tag, c["opt"], expected=c["selected"], observed=r_.get("observed"), detail=b, extra={"source": r_["src"]})
     ck.coverage["traces_validated_against_impl"] = 0
     if cases:
